@@ -132,6 +132,11 @@ func TestWorker(t *testing.T) {
 				}
 			}
 			fmt.Println()
+			if os.Getenv("VERIF_MEMLOG") == "2" {
+				var ms runtime.MemStats
+				runtime.ReadMemStats(&ms)
+				fmt.Printf("MEM1 run=%d fam=%s steps=%d totalAllocMB=%d heapSys=%dMB\n", i, fam.Name, r.Steps, ms.TotalAlloc>>20, ms.HeapSys>>20)
+			}
 			if os.Getenv("VERIF_MEMLOG") != "" && i%50 == 49 {
 				var ms runtime.MemStats
 				runtime.ReadMemStats(&ms)
